@@ -94,6 +94,30 @@ CLAIMED = {
             "WannierData.to_npz and from_npz; that equals() compares what the subclass adds. Does not decide printed precision.",
             "Trusted: Python ast, E0 index.",
             "DESIGN.md §3 C19"),
+    "C14": ("exact rational-function identities (AST -> polynomial normal form over Fraction) for every region expression of "
+            "weights_tetra; def-use argument for corner-order independence; structural rules on the 12-tetrahedra split, "
+            "sea completion and cache key",
+            "proof",
+            "Proof-level for the algebra: 31 identities (accurate branch = Bloechl formula, polynomial branch = accurate branch, "
+            "derivative ladders = formal derivatives, C0/C1 continuity, end values) are discharged by an exact normal form, so "
+            "they hold for all real corner energies with distinct values and any Fermi level; order independence holds because "
+            "the corner arguments only flow into one sort. Structural rules decide the parallelepiped decomposition, the "
+            "disjointness of sea/anti-sea completion from in-range groups and exact keying of cached weights. Does not decide "
+            "floating-point behaviour for nearly coincident corners (diff_min regularisation) or monotonicity numerically.",
+            "Trusted: Python ast, wbstatic.algebra, the AST->rational translation, the textbook formula encoded in the checker, "
+            "numba executing Python arithmetic semantics.",
+            "DESIGN.md §3 C14"),
+    "C25": ("spin-channel tag dataflow (identifier tags and stride-2 slots) with enumerated guarded-aliasing idioms; owner "
+            "provenance of R-indexed arrays; positional pairing of SOC blocks with Pauli elements and R-maps",
+            "other",
+            "Decides that no down-channel quantity is computed from up-channel data (or vice versa) outside nspin==1 / "
+            "missing-channel guards, that every stride-2 scatter follows even=up/odd=down on both axes, that SOC and spin "
+            "blocks (a,b) use pauli_rotated[a,b] with the (1,0) block the conjugate of (0,1), and that get_system_R maps each "
+            "block through its own R-map and adds Ham_SOC to 'Ham' only. Does not decide spectra or the Pauli algebra of the "
+            "rotated matrices (numerical).",
+            "Trusted: Python ast, E2; channel tags are read from identifier names (…_up/_down) — a renaming away from that "
+            "convention makes the rule fail closed (instance count).",
+            "DESIGN.md §3 C25"),
     "C26": ("exact polynomial normal form of the interpolation expressions; CFG must-pass rule 'centre write => cache "
             "invalidation and rvec rebuild'; positional/def-use pairing of index maps and spin channels",
             "other",
